@@ -69,6 +69,17 @@ def box_pair(x: object, y: object) -> object:
     return t
 
 
+def dup_steal(x: object) -> object:
+    # an owned temporary stolen twice by one op
+    y = [x]
+    return (y, y)
+
+
+def dup_steal_list(x: object) -> object:
+    y = [x]
+    return [y, y, y]
+
+
 def unpack_first(t: tuple[object, object]) -> object:
     a, b = t
     return a
